@@ -86,3 +86,111 @@ Proof. exact step_errs_in_model. Qed.
 Check c12_errs_in_model.
 Print Assumptions c12_errs_in_model.
 
+
+(* ---- bounded progress of the skeleton: Close and Disconnect return ---- *)
+(* C12 additions: PROGRESS of the L3 monitor (coq/theories/SyncProgress.v).  To be appended to coq/props/C12.v.
+   Environment assumptions are listed at the top of SyncProgress.v: (E1) every I/O gate EIO returns - built into the monitor as: EIO is enabled in every state; in the client: PauseTimeout deadlines, and the waiter closes the connection first (Close K_sel/EDefault, Disconnect D_sel/EQuit, toOffline R_off/EDefault, abort goroutine A_sel/ECtx true); (E2) a started goroutine eventually runs (EStart KAbort); (E3) only the designated goroutine moves. *)
+From MQ Require Import Sync SyncProofs SyncProgress.
+
+(* Close returns promptly: from EVERY reachable state there is a schedule of at most 45 enabled events (no new API call) after which the Close call has returned; the state reached is again reachable *)
+Theorem c12_close_returns : ltac:(let t := type of close_returns in exact t).
+Proof. exact close_returns. Qed.
+Check c12_close_returns.
+Print Assumptions c12_close_returns.
+
+(* the same for Disconnect, 46 events; quit is never needed (a nil quit is fine) *)
+Theorem c12_disconnect_returns : ltac:(let t := type of disconnect_returns in exact t).
+Proof. exact disconnect_returns. Qed.
+Check c12_disconnect_returns.
+Print Assumptions c12_disconnect_returns.
+
+(* game form: in every round a designated goroutine (Close itself, or the goroutine it transitively waits for) has an enabled event, and WHATEVER enabled faithful event it performs (all I/O outcomes, all select branches) the game continues with one round less; 45 rounds *)
+Theorem c12_close_must_return : ltac:(let t := type of close_must_return in exact t).
+Proof. exact close_must_return. Qed.
+Check c12_close_must_return.
+Print Assumptions c12_close_must_return.
+
+(* the same for Disconnect, 46 rounds *)
+Theorem c12_disconnect_must_return : ltac:(let t := type of disconnect_must_return in exact t).
+Proof. exact disconnect_must_return. Qed.
+Check c12_disconnect_must_return.
+Print Assumptions c12_disconnect_must_return.
+
+(* a won game yields a schedule of enabled faithful events *)
+Theorem c12_game_gives_schedule : ltac:(let t := type of must_return_schedule in exact t).
+Proof. exact must_return_schedule. Qed.
+Check c12_game_gives_schedule.
+Print Assumptions c12_game_gives_schedule.
+
+(* all outcomes: every non-panicking event of a goroutine that holds a token (or of a live abort goroutine) strictly decreases its weight (at most 19), except the ECtx-false stutter at P_have *)
+Theorem c12_holder_step : ltac:(let t := type of holder_step in exact t).
+Proof. exact holder_step. Qed.
+Check c12_holder_step.
+Print Assumptions c12_holder_step.
+
+(* a goroutine with positive weight is never stuck for good: it or the goroutine it waits for has an enabled potential-decreasing event *)
+Theorem c12_holder_progress : ltac:(let t := type of holder_progress in exact t).
+Proof. exact holder_progress. Qed.
+Check c12_holder_progress.
+Print Assumptions c12_holder_progress.
+
+(* all outcomes of the designated goroutine decrease the potential of the state *)
+Theorem c12_mover_all_outcomes : ltac:(let t := type of mover_dec in exact t).
+Proof. exact mover_dec. Qed.
+Check c12_mover_all_outcomes.
+Print Assumptions c12_mover_all_outcomes.
+
+(* the potential of every reachable state is at most 39 *)
+Theorem c12_potential_bounded : ltac:(let t := type of Phi_bound in exact t).
+Proof. exact Phi_bound. Qed.
+Check c12_potential_bounded.
+Print Assumptions c12_potential_bounded.
+
+(* all four semaphores are available again within 39 enabled events *)
+Theorem c12_tokens_released : ltac:(let t := type of tokens_released in exact t).
+Proof. exact tokens_released. Qed.
+Check c12_tokens_released.
+Print Assumptions c12_tokens_released.
+
+(* a blocked goroutine waits for a token held by ANOTHER goroutine of positive weight, or (read routine) for the live abort goroutine, or (abort goroutine) for the read routine in the handshake *)
+Theorem c12_blocked_waits_for : ltac:(let t := type of blocked_waits_for in exact t).
+Proof. exact blocked_waits_for. Qed.
+Check c12_blocked_waits_for.
+Print Assumptions c12_blocked_waits_for.
+
+(* a Publish-like request has returned, or sits at the designed wait (connPending seen, client not closed), within 43 enabled events, none of them its own quit *)
+Theorem c12_request_settles : ltac:(let t := type of request_settles in exact t).
+Proof. exact request_settles. Qed.
+Check c12_request_settles.
+Print Assumptions c12_request_settles.
+
+(* no goroutine leak: the abort goroutine of dialAndConnect ends (F6 repair) *)
+Theorem c12_abort_goroutine_ends : ltac:(let t := type of abort_goroutine_ends in exact t).
+Proof. exact abort_goroutine_ends. Qed.
+Check c12_abort_goroutine_ends.
+Print Assumptions c12_abort_goroutine_ends.
+
+(* the termCallbacks goroutines end *)
+Theorem c12_term_goroutine_ends : ltac:(let t := type of term_goroutine_ends in exact t).
+Proof. exact term_goroutine_ends. Qed.
+Check c12_term_goroutine_ends.
+Print Assumptions c12_term_goroutine_ends.
+
+(* pinned tree (F6): with the rendezvous send on done the state reached by Close-during-handshake has no partner for it, for ever; the read routine keeps connSem and Close stays at K_csem whatever all other goroutines do *)
+Theorem c12_f6_pinned_close_never_returns : ltac:(let t := type of f6_pinned_close_never_returns in exact t).
+Proof. exact f6_pinned_close_never_returns. Qed.
+Check c12_f6_pinned_close_never_returns.
+Print Assumptions c12_f6_pinned_close_never_returns.
+
+(* that state is reachable by a faithful trace *)
+Theorem c12_f6_state_reachable : ltac:(let t := type of f6_state in exact t).
+Proof. exact f6_state. Qed.
+Check c12_f6_state_reachable.
+Print Assumptions c12_f6_state_reachable.
+
+(* non-vacuity: in the same state of the current skeleton Close returns *)
+Example c12_f6_current_close_returns : ltac:(let t := type of f6_current_close_returns in exact t).
+Proof. exact f6_current_close_returns. Qed.
+Check c12_f6_current_close_returns.
+Print Assumptions c12_f6_current_close_returns.
+
